@@ -52,9 +52,11 @@ const DOC_SITES: [(&str, &str); 12] = [
 const PLACEMENTS: [&str; 9] = ["none", "cli", "cli-wrong-case", "file", "enclosing", "enclosing-inner", "element", "sibling", "other-file"];
 const ARGUMENTS: [&str; 7] = ["that", "All", "other", "that+other", "other+All", "two-attributes-other-then-that", "two-attributes-that-then-other"];
 
-fn doc_line(lint: &str, site: &str) -> &'static str {
+fn doc_line(lint: &str, site: &str, variant: bool) -> &'static str {
     match lint {
         "BrokenDocLink" => "/// See {@link Nowhere}.\n",
+        // (stopped by the comment lexer / rejected by the comment grammar)
+        "MalformedDocComment" if variant => "/// @see\n",
         "MalformedDocComment" => "/// @foo is no tag\n",
         // a tag that does not fit: @returns on something that returns nothing / is no operation
         "IncorrectDocComment" => match site {
@@ -166,7 +168,7 @@ fn cell(mut idx: u64) -> Cell {
             applicable = false;
         }
     }
-    let doc = doc_line(lint, site);
+    let doc = doc_line(lint, site, decoy);
     let fill = |f: &str, sib: &str, enc: &str, enc2: &str, elem: &str| -> String {
         template
             .replace("{FILE}", f)
@@ -320,10 +322,15 @@ fn strip_allow(p: &mut crate::model::Program) {
 // ---- random programs with many lints ----------------------------------------------------------------
 
 /// Doc lines that produce one lint of a given kind on any commentable element that is not an operation.
-const PLANTS: [(&str, &str); 5] = [
+const PLANTS: [(&str, &str); 9] = [
     ("BrokenDocLink", " see {@link NoSuchThing9} here"),
     ("MalformedDocComment", " @foo bar"),
     ("MalformedDocComment", " uses {@param x} inline"),
+    // forms that the comment *grammar* rejects (the ones above are stopped by its lexer)
+    ("MalformedDocComment", " @see"),
+    ("MalformedDocComment", " @param foo bar: text"),
+    ("MalformedDocComment", " a {@link Foo more words} b"),
+    ("MalformedDocComment", " @returns a b: text"),
     ("IncorrectDocComment", " @returns: text"),
     ("IncorrectDocComment", " @param x: text"),
 ];
